@@ -247,6 +247,10 @@ fn boundary_leg(g: &Grammar) -> Acc {
         .collect();
     let mut strings: Vec<String> = Vec::new();
     for e in &esc {
+        // moderate length: the escape sits behind / in front of a run of multi-byte characters
+        strings.push(format!("\"{}{e}\"", "é".repeat(20)));
+        strings.push(format!("\"{}{e}{}\"", "a".repeat(17), "日".repeat(20)));
+        strings.push(format!("\"{}{e}{}\"", "😀".repeat(9), "é".repeat(33)));
         strings.push(format!("\"{e}\""));
         strings.push(format!("\"a{e}b\""));
         strings.push(format!("\"é{e}日\""));
